@@ -60,7 +60,7 @@ MigSetup ==
         s2 == Apply(Cfg, s1, MigStore).st
         sp == s2.shards[1].sp
     IN <<MigStore, [E0 EXCEPT !.kind = "Complete", !.creator = sp, !.provider = sp, !.order = 1, !.size = 1000]>>
-FullSetup == IF Family \in {"migrate", "version"} THEN SetupEvents \o MigSetup ELSE AllSetup
+FullSetup == IF Family \in {"migrate", "version", "debt"} THEN SetupEvents \o MigSetup ELSE AllSetup
 
 InitState == FoldLeft(LAMBDA s, e : Apply(Cfg, s, e).st, Gen.post, FullSetup)
 
@@ -298,6 +298,22 @@ VersionEvents(s) ==
           IF nx = -1 \/ nx - s.h > 12000 THEN {} ELSE {[E0 EXCEPT !.kind = "Blocks", !.n = nx - s.h + 1]})
     \cup (IF s.h > 1000 THEN Terminates(s) ELSE {})
 
+\* debt: one stored model whose provider runs out of money: it sends its balance away (all but a few coins), the owner renews for
+\* longer and longer terms (each raises the collateral: taken from the balance, the rest recorded as debt), the provider claims
+\* (income repays the debt first), is refilled, the model is terminated or expires. C06 (the node escrow covers collateral net
+\* of recorded debt), C07 (collateral back to the pledger), C04, C14 on every step.
+DebtEvents(s) ==
+    LET holders == {sh.sp : sh \in {x \in Rng(s.shards) : x.status = SCompleted}} IN
+    {[E0 EXCEPT !.kind = "Send", !.creator = a, !.acc = "a08", !.amount = BalOf(s, a) - k] : a \in {x \in holders : BalOf(s, x) > 20}, k \in {0, 3}}
+    \cup {[E0 EXCEPT !.kind = "Send", !.creator = "a08", !.acc = a, !.amount = 5] : a \in {x \in holders : BalOf(s, x) < 5}}
+    \cup (IF Len(s.orders) <= 3 THEN {[E0 EXCEPT !.kind = "Renew", !.creator = Gateway, !.provider = Gateway, !.owner = m.owner, !.signer = m.owner,
+                                               !.datas = <<m.data>>, !.dur = d, !.timeout = 1800] : m \in Rng(s.metas), d \in {3600, 40000, 400000}} ELSE {})
+    \cup {[E0 EXCEPT !.kind = "Claim", !.creator = a] : a \in holders}
+    \cup Migrates(s) \cup Completes(s)
+    \cup (LET nx == NextScheduled(Cfg, Work(s)) IN
+          IF nx = -1 \/ nx - s.h > 12000 THEN {[E0 EXCEPT !.kind = "Blocks", !.n = 100]} ELSE {[E0 EXCEPT !.kind = "Blocks", !.n = nx - s.h + 1]})
+    \cup (IF s.h > 100 THEN Terminates(s) ELSE {})
+
 \* fault: one or two stored models; reports and recovery declarations by the fishman (a03), an ordinary node (a01) and the
 \* accused, about matching and mismatching shard / commit / data ids; time jumps to the next penalty round (every 600
 \* blocks) and across expiry. C19 on every step.
@@ -335,6 +351,7 @@ Events(s) ==
       [] Family = "fault"   -> FaultEvents(s)
       [] Family = "migrate" -> MigrateEvents(s)
       [] Family = "version" -> VersionEvents(s)
+      [] Family = "debt"    -> DebtEvents(s)
       [] Family = "gen" -> GStoreNew(s) \cup GStoreMore(s) \cup GStoreUpd(s) \cup GCompletes(s) \cup GCancels(s) \cup GSigned(s)
                            \cup Migrates(s) \cup Claims(s) \cup GBlocks(s) \cup GenDid(s) \cup GenStaking(s) \cup GenFaults(s)
       [] Family = "pay" -> StoreNew(s) \cup StoreUpd(s) \cup Completes(s) \cup Cancels(s) \cup Terminates(s) \cup Renews(s)
